@@ -144,6 +144,7 @@ int __real_pipe(int[2]);
 int __real_pipe2(int[2], int);
 int __real_ppoll(struct pollfd*, nfds_t, const struct timespec*, const sigset_t*);
 pid_t __real_wait4(pid_t, int*, int, struct rusage*);
+int __real_waitid(idtype_t, id_t, siginfo_t*, int);
 }
 
 namespace {
@@ -172,7 +173,7 @@ bool real_read_all(int fd, void* p, size_t n) {
 void wait_zombie() {
   siginfo_t si;
   memset(&si, 0, sizeof(si));
-  while (waitid(P_PID, g.ch.pid, &si, WEXITED | WNOWAIT) < 0) {
+  while (__real_waitid(P_PID, g.ch.pid, &si, WEXITED | WNOWAIT) < 0) {
     if (errno == EINTR) continue;
     if (errno == ECHILD) break; // already reaped (should not happen here)
     harness_bug("waitid failed");
@@ -264,7 +265,7 @@ void child_step() {
       // should it ask for stopped children)
       siginfo_t si;
       memset(&si, 0, sizeof(si));
-      while (waitid(P_PID, c.pid, &si, WSTOPPED | WNOWAIT) < 0) {
+      while (__real_waitid(P_PID, c.pid, &si, WSTOPPED | WNOWAIT) < 0) {
         if (errno == EINTR) continue;
         harness_bug("waitid(WSTOPPED) failed");
       }
@@ -780,6 +781,36 @@ pid_t __wrap_waitpid(pid_t pid, int* status, int options) {
   if (r == pid) {
     g.ch.zombie = false;
   }
+  errno = e;
+  return r;
+}
+
+int __wrap_waitid(idtype_t t, id_t id, siginfo_t* si, int options) {
+  if (!g.armed || t != P_PID || (pid_t)id != g.ch.pid || g.gave_up) return __real_waitid(t, id, si, options);
+  sched_point("waitid", options);
+  if (g.gave_up) return __real_waitid(t, id, si, options);
+  if (!(options & WNOHANG)) {
+    if (g.eintr_den && chance(1, g.eintr_den, "waitid.eintr")) {
+      VS_FAULT("EINTR@waitpid");
+      errno = EINTR;
+      return -1;
+    }
+    while (g.ch.alive && !((options & WSTOPPED) && g.ch.stopped)) {
+      Progress pg = let_world_move(false, 0);
+      if (g.gave_up) return __real_waitid(t, id, si, options | WNOHANG);
+      if (pg == STUCK) {
+        g.deadlock = true;
+        sim_fail("deadlock", "blocking_waitid", describe_stuck("waitid()"));
+        return __real_waitid(t, id, si, options | WNOHANG);
+      }
+    }
+  }
+  if (si) memset(si, 0, sizeof(*si));
+  int r = __real_waitid(t, id, si, options | WNOHANG);
+  int e = errno;
+  bool got = r == 0 && si && si->si_pid == g.ch.pid;
+  ev("waitid.ret", got ? 1 : (uint64_t)(int64_t)r);
+  if (got && !(options & WNOWAIT) && (si->si_code == CLD_EXITED || si->si_code == CLD_KILLED || si->si_code == CLD_DUMPED)) g.ch.zombie = false;
   errno = e;
   return r;
 }
